@@ -123,6 +123,15 @@ pub fn check_term(s: &mut Sess, rep: &mut Report, t: RegLan, k: usize, words: &[
                 continue;
             }
         };
+        match guard(|| s.m.class_derivative_unchecked(t, cid)) {
+            Ok(u) => {
+                rep.inc("unchecked_variant_probes");
+                if !std::ptr::eq(u, r) {
+                    s.viol(rep, "class-derivative", "class-derivative:unchecked-differs", format!("class_derivative_unchecked({}, {}) = {} but class_derivative gives {}", term_text(t), cid, term_text(u), term_text(r)), k);
+                }
+            }
+            Err(msg) => s.viol(rep, "class-derivative", "class-derivative:unchecked-panic", format!("class_derivative_unchecked({}, {}) panicked on a valid class: {}", term_text(t), cid, msg), k),
+        }
         let chars = class_chars(&ranges, cid, &probes);
         if chars.is_empty() {
             rep.harness_error(format!("no probe in class {} of {}", cid, term_text(t)));
@@ -222,6 +231,21 @@ pub fn check_term(s: &mut Sess, rep: &mut Report, t: RegLan, k: usize, words: &[
         let should_be_ok = inside.is_some() || !meets_any;
         match (res, should_be_ok) {
             (Ok(d), true) => {
+                if a % 3 == 0 {
+                    match guard(|| s.m.set_derivative_unchecked(t, &set)) {
+                        Ok(u) => {
+                            rep.inc("unchecked_variant_probes");
+                            if !std::ptr::eq(u, d) {
+                                s.viol(rep, "set-derivative", "set-derivative:unchecked-differs", format!("set_derivative_unchecked({}, [{:x},{:x}]) differs from set_derivative", term_text(t), a, b), k);
+                                break;
+                            }
+                        }
+                        Err(msg) => {
+                            s.viol(rep, "set-derivative", "set-derivative:unchecked-panic", format!("set_derivative_unchecked({}, [{:x},{:x}]) panicked on a set inside one class: {}", term_text(t), a, b, msg), k);
+                            break;
+                        }
+                    }
+                }
                 // the common derivative: compare with the quotient for both end points
                 if !check_quotient(s, rep, t, a, d, k, "set-derivative", "set_derivative", words) {
                     break;
